@@ -74,7 +74,7 @@ CLAIMED = {
     technique="TLA+ trace validation: pin-set balance evaluated by TLC on every recorded statement of the SQL workloads"),
  "C17": dict(
     category="model_checking",
-    text="Multimap (set of (key, row id) entries with Point / Range answers) is the oracle. The index objects of real tables (skip list, unique skip list, B-tree, hash; int / float / varchar keys incl. extremes, denormals, empty and 380-byte strings, hot duplicate keys, adjacent keys) are driven through the index.Index interface with insert-heavy then delete-heavy phases and key-changing updates; every 50 operations a battery of point lookups and full / bounded / half-open ordered scans; TLC validates every answer against Multimap. Concurrent clause: windows of 4 goroutines inserting / deleting / looking up on one shared index while ordered scans run, over never-touched sentinel entries; TLC decides with silent linearization steps whether each recorded history is explainable (atomic point operations; scans ordered, duplicate-free, containing everything present throughout and nothing never present). Mechanism level: spec/SkipList (L1: FindNode latch coupling and go-backward case, validateNoChangeAndGetLock, split, node removal, iterator, update counters, page ids handed out again; one action per latch acquisition) is model-checked for 2-3 threads with lookups / removals / scans judged against the abstract map at their linearization steps, each of six defect switches must produce a counterexample; it is bound to the code by SkipListTrace (the node structure - entries, levels, forward entries, counters - read back from the real pages after every call of random sequential sequences equals the specification's state) and by replaying the model's counterexample schedules on the real list through a gate hook (judged as call histories).",
+    text="Multimap (set of (key, row id) entries with Point / Range answers) is the oracle. The index objects of real tables (skip list, unique skip list, B-tree, hash; int / float / varchar keys incl. extremes, denormals, empty and 380-byte strings, hot duplicate keys, adjacent keys) are driven through the index.Index interface with insert-heavy then delete-heavy phases and key-changing updates; every 50 operations a battery of point lookups and full / bounded / half-open ordered scans; TLC validates every answer against Multimap. Concurrent clause: windows of 4 goroutines inserting / deleting / looking up on one shared index while ordered scans run, over never-touched sentinel entries; TLC decides with silent linearization steps whether each recorded history is explainable (atomic point operations; scans ordered, duplicate-free, containing everything present throughout and nothing never present). Mechanism level: spec/SkipList (L1: FindNode latch coupling and go-backward case, validateNoChangeAndGetLock, split, node removal, iterator, update counters, page ids handed out again; one action per latch acquisition) is model-checked for 2-3 threads with lookups / removals / scans judged against the abstract map at their linearization steps, each of six defect switches must produce a counterexample; it is bound to the code by SkipListTrace (the node structure - entries, levels, forward entries, counters - read back from the real pages after every call of random sequential sequences equals the specification's state) and by replaying the model's counterexample schedules on the real list through a gate hook (judged as call histories). spec/HashTable (L1: linear probing with wrap-around, tombstones) is model-checked for the multimap contract under the caller's obligation and bound to the code by comparing the slots of a real two-block table after every call.",
     design_ref="DESIGN.md sections 0.4, 0.7 and 5 C17",
     note="Trusted: TLC, recording drivers. Concurrency is sampled (seeds x GOMAXPROCS), windows of 160 calls, plus two replayed schedules; hash and unique kinds only sequentially. SkipList model: 4-5 keys, node capacity 3, 2 levels, <= 4 nodes; its latch protocol is not bound by latch-level traces. Open known findings: unique skip list over integer keys, B-tree ffff stopper.",
     technique="TLA+ contract spec as oracle + TLA+ mechanism spec of the skip list; TLC model checking with defect switches, TLC trace validation of recorded operation sequences and of the real node structure, TLC linearizability check of concurrent histories and of replayed counterexample schedules"),
